@@ -406,3 +406,413 @@ def cli_test(version_str, pattern, flags, date_given, date, today, set_version):
         elif line.startswith("PEP440     : "):
             pep = line[len("PEP440     : "):]
     return {"exit": 0, "new": new, "pep440": pep if pep is not None else new}
+
+
+# ---- configuration layer (C18) and `bumpver init` (C19) ---------------------------
+
+class _Cwd:
+    def __init__(self, d):
+        self.d = d
+
+    def __enter__(self):
+        self.old = os.getcwd()
+        os.chdir(self.d)
+
+    def __exit__(self, *a):
+        os.chdir(self.old)
+
+
+def ini_raw(text):
+    """what bumpver's configparser subclass hands over: [[section, [[option, value]…]]…]"""
+    import io, configparser
+    from bumpver import config
+    p = config._ConfigParser()
+    try:
+        p.read_file(io.StringIO(text))
+    except configparser.Error as ex:
+        return {"err": "configparser." + type(ex).__name__}
+    return {"sections": [[s, [[k, v] for k, v in p.items(s)]] for s in p.sections()]}
+
+
+def _toml_section(tbl):
+    if not isinstance(tbl, dict):
+        return {"unsupported": "table is %s" % type(tbl).__name__}
+    opts, fp = [], None
+    for k, v in tbl.items():
+        if k == "file_patterns":
+            if not isinstance(v, dict) or not all(isinstance(ps, list) and all(isinstance(p, str) for p in ps) for ps in v.values()):
+                return {"unsupported": "file_patterns is not a table of string lists"}
+            fp = [[f, list(ps)] for f, ps in v.items()]
+        elif isinstance(v, (str, bool)):
+            opts.append([k, v])
+        else:
+            return {"unsupported": "value of %s is %s" % (k, type(v).__name__)}
+    return {"opts": opts, "file_patterns": fp}
+
+
+def toml_raw(text):
+    """toml.load reduced to the three tables bumpver looks at"""
+    import io, toml
+    try:
+        full = toml.load(io.StringIO(text))
+    except Exception as ex:  # toml raises TomlDecodeError and, on odd input, IndexError/ValueError
+        return {"err": "toml." + type(ex).__name__}
+    doc = {"tool_bumpver": None, "bumpver": None, "pycalver": None}
+    if "tool" in full and "bumpver" in full["tool"]:
+        doc["tool_bumpver"] = _toml_section(full["tool"]["bumpver"])
+    if "bumpver" in full:
+        doc["bumpver"] = _toml_section(full["bumpver"])
+    if "pycalver" in full:
+        doc["pycalver"] = _toml_section(full["pycalver"])
+    for v in doc.values():
+        if isinstance(v, dict) and "unsupported" in v:
+            return {"unsupported": v["unsupported"]}
+    return {"doc": doc}
+
+
+_CFG_ERR_TAGS = [
+    ("Missing [bumpver] section", "missingSection"),
+    ("Missing version_pattern", "missingPattern"),
+    ("Invalid type for version_pattern", "patternType"),
+    ("Missing 'current_version'", "missingVersion"),
+    ("Invalid type for current_version", "versionType"),
+    ("Could not parse 'current_version'", "noVersionLine"),
+    ("Invalid configuration. current_version=", "invalidVersion"),
+    ("Invalid character(s)", "invalidVersion"),
+    ("Invalid week number pattern", "invalidVersion"),
+    ("Character not valid in this position", "bracketPattern"),
+    ("is not a valid TagScope", "tagScope"),
+    ("commit=True required if tag=True", "tagRequiresCommit"),
+    ("commit=True required if push=True", "pushRequiresCommit"),
+    ("Invalid value for pre_commit_hook", "preHookMissing"),
+    ("Invalid value for post_commit_hook", "postHookMissing"),
+]
+
+
+def _cfg_err(ex):
+    import re
+    if isinstance(ex, re.error):
+        return {"err": "re.error", "what": "reError"}
+    if isinstance(ex, AttributeError):
+        return {"err": "AttributeError", "what": "notAString"}
+    msg = str(ex)
+    for frag, tag in _CFG_ERR_TAGS:
+        if frag in msg:
+            return {"err": exc_name(ex), "what": tag}
+    return {"err": exc_name(ex), "what": "other: " + msg[:120]}
+
+
+class _RawPatterns:
+    """`Pattern.raw_pattern` holds the NORMALISED pattern; to observe which raw patterns reach the
+    compiler (and in which grouping) the compile functions config.py calls are wrapped: the real
+    function runs (errors surface), the returned Pattern carries the raw text."""
+
+    def __enter__(self):
+        from bumpver import config, patterns
+        self.config = config
+        self.saved = []
+        for mod in (config.v1patterns, config.v2patterns):
+            real_one, real_many = mod.compile_pattern, mod.compile_patterns
+
+            def one(vp, raw=None, _real=real_one):
+                p = _real(vp, raw)
+                return patterns.Pattern(vp, vp if raw is None else raw, p.regexp)
+
+            def many(vp, raws, _one=one):
+                return [_one(vp, r) for r in raws]
+            self.saved.append((mod, real_one, real_many))
+            mod.compile_pattern, mod.compile_patterns = one, many
+        return self
+
+    def __exit__(self, *a):
+        for mod, o, m in self.saved:
+            mod.compile_pattern, mod.compile_patterns = o, m
+
+
+def _effective_json(cfg, raw_patterns):
+    out = {
+        "current_version": cfg.current_version, "version_pattern": cfg.version_pattern,
+        "commit_message": cfg.commit_message, "tag_message": cfg.tag_message,
+        "tag_scope": cfg.tag_scope.value, "pre_commit_hook": cfg.pre_commit_hook,
+        "post_commit_hook": cfg.post_commit_hook, "commit": bool(cfg.commit), "tag": bool(cfg.tag),
+        "push": bool(cfg.push), "is_new_pattern": bool(cfg.is_new_pattern),
+        "file_patterns": [[f, [p.raw_pattern for p in ps]] for f, ps in cfg.file_patterns.items()],
+    }
+    if not raw_patterns:
+        out["pep440_version"] = cfg.pep440_version
+        out["regexps"] = [[f, [p.regexp.pattern for p in ps]] for f, ps in cfg.file_patterns.items()]
+        out["types"] = [type(cfg.commit).__name__, type(cfg.tag).__name__, type(cfg.push).__name__]
+    return out
+
+
+def cfg_post(fmt, text, cwd, self_rel_path=None):
+    """the real reader after its parser: `_parse_cfg`/`_parse_toml` on `text` (or, with
+    self_rel_path, `_parse_raw_config` on that file of the project `cwd`), then `_parse_config`.
+    File patterns are reported raw (see _RawPatterns)."""
+    import io, re
+    from bumpver import config, pathlib as pl
+    _quiet()
+    with _Cwd(cwd), _RawPatterns():
+        try:
+            if self_rel_path is None:
+                raw = (config._parse_cfg if fmt == "cfg" else config._parse_toml)(io.StringIO(text))
+            else:
+                ctx = config.ProjectContext(pl.Path("."), pl.Path.cwd() / self_rel_path, self_rel_path, fmt, None)
+                raw = config._parse_raw_config(ctx)
+            cfg = config._parse_config(raw)
+        except (TypeError, ValueError, AttributeError, KeyError, re.error) as ex:
+            return _cfg_err(ex)
+    return {"ok": _effective_json(cfg, True)}
+
+
+def cfg_validate(current_version, version_pattern, is_new):
+    """does `_validate_version_with_pattern` return?"""
+    from bumpver import config
+    import re
+    _quiet()
+    try:
+        config._validate_version_with_pattern(current_version, version_pattern, is_new)
+        return True
+    except (ValueError, TypeError, KeyError, IndexError, re.error):
+        return False
+
+
+def cfg_compile_ok(is_new, version_pattern, raw_pattern):
+    from bumpver import v1patterns, v2patterns
+    import re
+    _quiet()
+    try:
+        (v2patterns if is_new else v1patterns).compile_pattern(version_pattern, raw_pattern)
+        return True
+    except re.error:
+        return False
+
+
+def glob_in(cwd, g):
+    from bumpver import pathlib as pl
+    with _Cwd(cwd):
+        try:
+            return [str(p) for p in pl.Path().glob(g)]
+        except (ValueError, NotImplementedError, IndexError) as ex:
+            return {"err": exc_name(ex)}
+
+
+def path_exists_in(cwd, p):
+    from bumpver import pathlib as pl
+    with _Cwd(cwd):
+        return pl.Path(p).exists()
+
+
+def cfg_init_in(cwd):
+    """`config.init(".")` in the project: (config file, effective settings or None, exception)"""
+    import re
+    from bumpver import config
+    _quiet()
+    with _Cwd(cwd):
+        try:
+            ctx, cfg = config.init(project_path=".")
+        except (AttributeError, KeyError, re.error) as ex:
+            return {"crash": exc_name(ex)}
+    if cfg is None:
+        return {"file": ctx.config_rel_path, "cfg": None}
+    return {"file": ctx.config_rel_path, "cfg": _effective_json(cfg, False)}
+
+
+def cur_version_pattern(text, current_version, version_pattern):
+    from bumpver import config
+    try:
+        return {"ok": config._parse_current_version_default_pattern(
+            {"current_version": current_version, "version_pattern": version_pattern}, text)}
+    except ValueError:
+        return {"err": "ValueError"}
+
+
+def init_pick(cwd):
+    from bumpver import config, pathlib as pl
+    with _Cwd(cwd):
+        return {"ok": str(config._pick_config_filepath(pl.Path(".")))}
+
+
+def init_text(cwd):
+    from bumpver import config
+    with _Cwd(cwd):
+        try:
+            return {"ok": config.default_config(config.init_project_ctx("."))}
+        except (ValueError, KeyError, IndexError) as ex:
+            return {"err": exc_name(ex)}
+
+
+def init_parses(cwd):
+    """what cli.init asks before writing: does the picked file hold a usable configuration?"""
+    from bumpver import config
+    _quiet()
+    with _Cwd(cwd):
+        ctx, cfg = config.init(project_path=".", cfg_missing_ok=True)
+    return cfg is not None
+
+
+def this_year():
+    from bumpver import utils
+    return utils.now().year
+
+
+# ---- legacy (v1) engine (C20) --------------------------------------------------------
+
+V1_CAL_FIELDS = ["year", "quarter", "month", "dom", "doy", "iso_week", "us_week"]
+
+
+def v1_info_json(vi):
+    return {"cal": [getattr(vi, f) for f in V1_CAL_FIELDS], "major": vi.major, "minor": vi.minor, "patch": vi.patch,
+            "bid": vi.bid, "tag": vi.tag}
+
+
+def v1_info_from_json(j):
+    from bumpver import version
+    kw = dict(zip(V1_CAL_FIELDS, j["cal"]))
+    kw.update(major=j["major"], minor=j["minor"], patch=j["patch"], bid=j["bid"], tag=j["tag"])
+    return version.V1VersionInfo(**kw)
+
+
+def v1_make_info(date, major=0, minor=0, patch=0, bid="0001", tag="final"):
+    """a V1VersionInfo with all calendar fields of `date` [y, m, d] (as `incr` builds them)"""
+    from bumpver import version, v1version
+    kw = v1version.cal_info(dt.date(*date))._asdict()
+    kw.update(major=major, minor=minor, patch=patch, bid=bid, tag=tag)
+    return version.V1VersionInfo(**kw)
+
+
+def _v1_err(ex):
+    import re
+    if isinstance(ex, re.error):
+        return {"err": "re.error"}
+    if isinstance(ex, NotImplementedError):
+        return {"err": "NotImplementedError"}
+    return {"err": exc_name(ex)}
+
+
+_V1_EXC = (TypeError, ValueError, OverflowError, KeyError, IndexError, AssertionError, NotImplementedError, AttributeError)
+
+
+def v1_compile_str(pattern, version_pattern=None):
+    from bumpver import v1patterns
+    import re
+    try:
+        n = v1patterns._normalized_pattern(version_pattern if version_pattern is not None else pattern, pattern)
+        return {"ok": v1patterns._compile_pattern_re(n).pattern}
+    except re.error as ex:
+        return _v1_err(ex)
+
+
+def v1_compile_search(pattern, line, version_pattern=None):
+    from bumpver import v1patterns
+    import re
+    _quiet()
+    try:
+        n = v1patterns._normalized_pattern(version_pattern if version_pattern is not None else pattern, pattern)
+        rx = v1patterns._compile_pattern_re(n)
+    except re.error as ex:
+        return _v1_err(ex)
+    m = rx.search(line)
+    if m is None:
+        return {"nomatch": 1}
+    # groups with non-empty text only (see Driver/V1.lean v1MatchJson)
+    return {"span": [m.start(), m.end()], "groups": {k: v for k, v in m.groupdict().items() if v}}
+
+
+def v1_parse(version_str, pattern):
+    from bumpver import v1version, version
+    import re
+    _quiet()
+    try:
+        vi = v1version.parse_version_info(version_str, pattern)
+    except version.PatternError:
+        return {"err": "PatternError"}
+    except (re.error,) + _V1_EXC as ex:
+        return _v1_err(ex)
+    if vi.bid is None:
+        return {"err": "unsupported-by-model"}
+    return {"ok": v1_info_json(vi)}
+
+
+def v1_format(vj, pattern):
+    from bumpver import v1version
+    try:
+        return {"ok": v1version.format_version(v1_info_from_json(vj), pattern)}
+    except _V1_EXC as ex:
+        return _v1_err(ex)
+
+
+def v1_incr(version_str, pattern, flags, date, today):
+    from bumpver import v1version, version
+    import re
+    _quiet()
+    with _Today(today):
+        try:
+            r = v1version.incr(version_str, pattern, major=flags["major"], minor=flags["minor"], patch=flags["patch"],
+                               tag=flags["tag"], tag_num=flags["tag_num"], pin_date=flags["pin_date"],
+                               maybe_date=dt.date(*date))
+        except (re.error,) + _V1_EXC as ex:
+            return _v1_err(ex)
+    return {"ok": r}
+
+
+def v1_gate(pattern, old, new):
+    from bumpver import cli
+    import re
+    _quiet()
+    try:
+        return {"ok": bool(cli._is_valid_version(pattern, old, new, unique=False))}
+    except (re.error,) + _V1_EXC as ex:
+        return _v1_err(ex)
+
+
+def dispatch(pattern):
+    """which engine do `bumpver test`/`update` (incr_dispatch), the gate (_is_valid_version) and the config loader
+    (_parse_config) pick for this pattern?  Observed by spying on the four entry points while the real functions run."""
+    from bumpver import cli, config, v1version, v2version
+    _quiet()
+    seen = {"incr": None, "gate": None, "config": None}
+    orig = (v1version.incr, v2version.incr, v1version.parse_version_info, v2version.parse_version_info)
+    where = ["incr"]
+
+    class _Stop(Exception):
+        pass
+
+    def spy(engine):
+        def f(*a, **k):
+            seen[where[0]] = engine
+            raise _Stop()
+        return f
+    v1version.incr, v2version.incr = spy("v1"), spy("v2")
+    v1version.parse_version_info, v2version.parse_version_info = spy("v1"), spy("v2")
+    try:
+        for w, call in (("incr", lambda: cli.incr_dispatch("0", pattern)),
+                        ("gate", lambda: cli._is_valid_version(pattern, "0", "1")),
+                        ("config", lambda: config._parse_config({"current_version": "0", "version_pattern": pattern, "commit": False,
+                                                                  "tag": False, "push": False, "file_patterns": {}}))):
+            where[0] = w
+            try:
+                call()
+            except _Stop:
+                pass
+    finally:
+        v1version.incr, v2version.incr, v1version.parse_version_info, v2version.parse_version_info = orig
+    return {"has_v1_part": seen["incr"] == "v1", "is_new_pattern": seen["gate"] == "v2", "engines": seen}
+
+
+def v1_date_of_doy(y, doy):
+    d = dt.date(y, 1, 1) + dt.timedelta(days=doy - 1)
+    return [d.year, d.month, d.day]
+
+
+def toml_encoding_ok(enc, s):
+    """does the third-party toml parser read the encoded string `enc` back as `s` (as a scalar, in an inline array and in
+    a multi-line array)?  toml 0.10.2 mis-reads some valid strings (`"\\""` -> '', `[","]` -> ['', '']); the generators only
+    use encodings that survive."""
+    import toml
+    try:
+        return (toml.loads("k = " + enc + "\n")["k"] == s
+                and toml.loads("k = [" + enc + ", \"z\"]\n")["k"] == [s, "z"]
+                and toml.loads("k = [\n    " + enc + ",\n    " + enc + ",\n]\n")["k"] == [s, s])
+    except Exception:
+        return False
